@@ -1201,6 +1201,42 @@ func scnHamt(rep *Report, rng *Rng, tier string, outdir string) {
 			add(HamtInput{Mode: "sharded", Fanout: f, Entries: mkEntries(rev), Probes: []string{"zz"}})
 		}
 	}
+	// the same two families found by search instead of by chance: a member M alone in its root bucket b, and a non-member
+	// K that (a) is M with the last j characters of b's hex prefix in front, or (b) is a proper suffix of M, AND whose own
+	// hash selects bucket b - the lookup of K reaches M's link, only the final name comparison tells them apart
+	for _, f := range []int{8, 16, 256} {
+		lg := 0
+		for 1<<uint(lg) < f {
+			lg++
+		}
+		pad := len(fmt.Sprintf("%X", f-1))
+		slot := func(n string) int { return int(binary.BigEndian.Uint64(mhash(n)) >> uint(64-lg)) }
+		found := 0
+		for c := 0; c < 60000 && found < 6; c++ {
+			m := fmt.Sprintf("report-%d.txt", c)
+			b := slot(m)
+			var k string
+			if found%2 == 0 {
+				j := 1 + (found/2)%pad
+				k = fmt.Sprintf("%0*X", pad, b)[pad-j:] + m
+			} else {
+				k = m[1+(c%5):]
+			}
+			if slot(k) != b {
+				continue
+			}
+			// two more members in other buckets keep M at the root level
+			ns := []string{m}
+			for x := 0; len(ns) < 3 && x < 1000; x++ {
+				o := fmt.Sprintf("other-%d-%d", c, x)
+				if so := slot(o); so != b && (len(ns) == 1 || so != slot(ns[1])) {
+					ns = append(ns, o)
+				}
+			}
+			found++
+			add(HamtInput{Mode: "sharded", Fanout: f, Entries: mkEntries(ns), Probes: []string{k, k + "x", m + "x"}})
+		}
+	}
 	// keys that are a member name with (part of) a bucket prefix in front, or a proper suffix of a member name:
 	// non-members that a careless prefix comparison would accept when their hash walks to the member's slot
 	for _, f := range []int{8, 16, 256} {
